@@ -707,6 +707,21 @@ mod tests {
     }
 
     #[test]
+    fn heap_monitor_sees_roots_in_the_first_temporaries() {
+        // position 0 -> X4, position 1 -> X6 (first temporaries); an undefined pointer root is poison
+        assert_eq!(violation("// @verif stmt=exit n=0 env=[a:prd]\nLI X10 0", &[]), ViolationKind::Poison);
+        // a root that is no block address
+        assert_eq!(violation("LI X4 0\nLI X6 24\n// @verif stmt=exit n=0 env=[a:prd,b:cns]\nLI X10 0", &[]), ViolationKind::Heap);
+        // bump the frontier without keeping the block: lost block
+        assert_eq!(violation("ADD X3 X3 64\n// @verif stmt=exit n=0 env=[]\nLI X10 0", &[]), ViolationKind::Heap);
+        // a well-formed one-block object held by position 1, integers are not roots
+        let ok = "MV X6 X2\nMV X2 X3\nADD X3 X3 64\n// @verif stmt=exit n=0 env=[i:ext,b:prd]\nLI X10 0";
+        let r = exec(ok, &[]);
+        assert!(r.violation.is_none(), "{:?}", r.violation);
+        assert_eq!(r.stats.max_reachable_blocks, 1);
+    }
+
+    #[test]
     fn poison_uses() {
         // everything but heap, free and the arguments is undefined at entry
         assert_eq!(violation("MV X10 X5\nJAL X0 cleanup", &[]), ViolationKind::Poison);
@@ -739,20 +754,13 @@ mod tests {
             match stem {
                 "mini" => assert_eq!(v, 10),
                 "arith" => assert_eq!(v, 60),
+                // head of Cons(9, Cons(7, Cons(5, Nil)))
+                "list" => assert_eq!(v, 9),
                 _ => {}
             }
             seen += 1;
         }
         assert!(seen >= 2);
-    }
-
-    #[test]
-    fn tmp_adhoc() {
-        let Ok(path) = std::env::var("RV_ADHOC") else { return };
-        let text = std::fs::read_to_string(path).unwrap();
-        let p = parse(&text).unwrap();
-        let r = run(&p, &[], &EmuConfig::default());
-        eprintln!("{:?} {:?}\n{:?}", r.outcome.end, r.violation, r.stats);
     }
 
     #[test]
